@@ -406,7 +406,6 @@ func selectionsStore(c *Ctx, fn *ssa.Function, st *ssa.Store) (bool, string, str
 	return true, shortFn(topFn(fn)) + "/store:CollectedField.Selections", bad
 }
 
-
 // retains: how the pointer v (a parameter) may outlive the call — stored, captured, sent, boxed, handed to a goroutine — looking
 // into module functions it is passed to (depth-bounded); "" if it is only read.
 func (c *Ctx) retains(v ssa.Value, depth int, seen map[ssa.Value]bool) string {
@@ -453,7 +452,6 @@ func (c *Ctx) retains(v ssa.Value, depth int, seen map[ssa.Value]bool) string {
 	}
 	return ""
 }
-
 
 func isSyncMapMutator(f *ssa.Function) bool {
 	switch f.String() {
